@@ -95,7 +95,8 @@ def port_crosscheck(res, tv, n):
 # oracle after forward()
 # ---------------------------------------------------------------------------------------------
 def certificate(m, d, mm, dd, cfg):
-  """(failures, stats) for one forwarded scene: force-from-qacc, KKT residual, qacc vs MuJoCo."""
+  """(failures, stats) for one forwarded scene: force-from-qacc, KKT residual, qacc vs MuJoCo.
+  d: one MjData (all worlds share its state) or a list with one MjData per world."""
   import mujoco
 
   from mujoco_warp._src import types
@@ -103,13 +104,8 @@ def certificate(m, d, mm, dd, cfg):
   fails = []
   st = {"rows": 0, "worst_force": 0.0, "worst_kkt": 0.0, "worst_qacc": 0.0, "niter": 0}
   nv = m.nv
-  M = np.zeros((nv, nv))
-  for i in range(nv):  # inertia matrix column by column (MuJoCo, float64)
-    e = np.zeros(nv)
-    e[i] = 1.0
-    col = np.zeros(nv)
-    mujoco.mj_mulM(m, d, col, e)
-    M[:, i] = col
+  dlist = d if isinstance(d, list) else [d] * dd.nworld  # MuJoCo data per world (heterogeneous batches)
+  hetero = isinstance(d, list)
   typ, state = dd.efc.type.numpy(), dd.efc.state.numpy()
   force = dd.efc.force.numpy().astype(np.float64)
   D, fl, aref, eid = dd.efc.D.numpy().astype(np.float64), dd.efc.frictionloss.numpy().astype(np.float64), dd.efc.aref.numpy().astype(np.float64), dd.efc.id.numpy()
@@ -119,8 +115,20 @@ def certificate(m, d, mm, dd, cfg):
   nacon = int(dd.nacon.numpy()[0])
   niter = dd.solver_niter.numpy()
   ELL = int(types.ConstraintType.CONTACT_ELLIPTIC)
+  nefc_a, ne_a, nf_a = dd.nefc.numpy(), dd.ne.numpy(), dd.nf.numpy()
+  Mcache = None
   for w in range(dd.nworld if nv else 0):
-    nefc, ne, nf = int(dd.nefc.numpy()[w]), int(dd.ne.numpy()[w]), int(dd.nf.numpy()[w])
+    d = dlist[w]
+    if Mcache is None or hetero:
+      M = np.zeros((nv, nv))
+      for i in range(nv):  # inertia matrix column by column (MuJoCo, float64, this world's configuration)
+        e = np.zeros(nv)
+        e[i] = 1.0
+        col = np.zeros(nv)
+        mujoco.mj_mulM(m, d, col, e)
+        M[:, i] = col
+      Mcache = M
+    nefc, ne, nf = int(nefc_a[w]), int(ne_a[w]), int(nf_a[w])
     st["rows"] += nefc
     st["niter"] = max(st["niter"], int(niter[w]))
     a = qacc[w, :nv]
@@ -166,14 +174,25 @@ def certificate(m, d, mm, dd, cfg):
     # (ii) KKT residual of the reported solution
     res_v = M @ a - qsm[w, :nv] - (J.T @ force[w, :nefc] if nefc else 0.0)
     scale = np.abs(M) @ np.abs(a) + np.abs(qsm[w, :nv]) + (np.abs(J).T @ np.abs(force[w, :nefc]) if nefc else 0.0)
-    kkt = float(np.max(np.abs(res_v) / (scale + 1e-6)))
+    # per dof, relative to that dof's term magnitudes plus 1e-3 of the world's largest (float32 M*qacc and J'f carry
+    # rounding errors proportional to the largest terms of the world; the solver's own criterion is a global norm)
+    den = scale + 1e-3 * float(np.max(scale)) + 1e-6
+    kkt = float(np.max(np.abs(res_v) / den))
+    # ... and only when the residual matters in energy: 1/2 g' M^-1 g bounds the cost decrease still available
+    # (H >= M); below ~1e-6 of the cost's natural scale it is under the float32 resolution of the cost the line
+    # search evaluates, i.e. within the solver's attainable tolerance
+    nat_k = float(a @ M @ a + qsm[w, :nv] @ np.linalg.solve(M, qsm[w, :nv]) + np.sum(D[w, :nefc] * jscale**2))
+    energy = 0.5 * float(res_v @ np.linalg.solve(M, res_v))
+    if energy <= 1e-6 * nat_k:
+      kkt = min(kkt, cfg["kkt_tol"])
     st["worst_kkt"] = max(st["worst_kkt"], kkt)
+    st["worst_energy"] = max(st.get("worst_energy", 0.0), energy / (nat_k + 1e-30))
     if kkt > cfg["kkt_tol"]:
-      i = int(np.argmax(np.abs(res_v) / (scale + 1e-6)))
+      i = int(np.argmax(np.abs(res_v) / den))
       fails.append({"site": "kkt-residual", "world": w, "dof": i, "residual": float(res_v[i]), "scale": float(scale[i]), "relative": kkt, "niter": int(niter[w])})
     # (iii) against MuJoCo, when both built the same constraint set: MuJoCo's qacc must not have a lower
     # Gauss cost (evaluated in float64 on MJWarp's own J, aref, D with the port), and qacc agrees loosely
-    if w == 0 and H.same_constraints(m, d, dd, w, frames=(cfg["cone"] == "pyramidal")):
+    if (w == 0 or hetero) and H.same_constraints(m, d, dd, w, frames=(cfg["cone"] == "pyramidal")):
       st["compared"] = st.get("compared", 0) + 1
       Minv_q = np.linalg.solve(M, qsm[w, :nv]) if nv else np.zeros(0)
       # the two engines must be solving the same problem: row masses per constraint type as multisets
@@ -239,6 +258,149 @@ def directed_scenes():
   return out
 
 
+BATCHES = (1, 2, 7, 16, 33)
+
+
+def run_batch(xml, qpos_b, qvel_b):
+  """mjw.forward on a batch with one state per world; MuJoCo mj_forward per world.  Returns (m, [d_w], mm, dd)."""
+  import mujoco
+  import warp as wp
+
+  import mujoco_warp as mjw
+
+  qpos_b, qvel_b = np.atleast_2d(np.asarray(qpos_b, dtype=np.float64)), np.atleast_2d(np.asarray(qvel_b, dtype=np.float64))
+  m = mujoco.MjModel.from_xml_string(xml)
+  dl = []
+  for w in range(len(qpos_b)):
+    d = mujoco.MjData(m)
+    d.qpos[:] = qpos_b[w]
+    d.qvel[:] = qvel_b[w]
+    mujoco.mj_forward(m, d)
+    dl.append(d)
+  nworld = len(dl)
+  mm = mjw.put_model(m)
+  big = max(dl, key=lambda d: d.nefc)
+  dd = mjw.put_data(m, big, nworld=nworld, njmax=max(2 * big.nefc + 16, 32), naconmax=max(2 * sum(d.ncon for d in dl), big.ncon * nworld, max(d.ncon for d in dl) * nworld) + 16)
+  dd.qpos = wp.array(qpos_b.astype(np.float32), dtype=float)
+  dd.qvel = wp.array(qvel_b.astype(np.float32), dtype=float)
+  mjw.forward(mm, dd)
+  wp.synchronize()
+  return m, dl, mm, dd
+
+
+def batch_states(rng, m, nworld):
+  """nworld different states of one model (float32-representable)."""
+  import mujoco
+
+  qp, qv = [], []
+  for _ in range(nworld):
+    d = H.make_state(rng, m, mujoco.MjData(m))
+    qp.append(np.asarray(d.qpos, dtype=np.float32).astype(np.float64))
+    qv.append(np.asarray(d.qvel, dtype=np.float32).astype(np.float64))
+  return np.array(qp), np.array(qv)
+
+
+def big_scene(rng, cone, solver):
+  """More than 60 dofs (11 free bodies + a 4-link limited arm): MuJoCo/MJWarp choose the sparse Jacobian by themselves."""
+  bodies = ""
+  for i in range(11):
+    gt = ("sphere", "capsule", "box")[i % 3]
+    size = {"sphere": f"{rng.uniform(0.05, 0.09):.3g}", "capsule": f"{rng.uniform(0.03, 0.05):.3g} {rng.uniform(0.05, 0.1):.3g}", "box": f"{rng.uniform(0.04, 0.08):.3g} {rng.uniform(0.04, 0.08):.3g} {rng.uniform(0.04, 0.08):.3g}"}[gt]
+    bodies += (
+      f'<body name="f{i}" pos="{(i % 4) * 0.45 - 0.7:.3g} {(i // 4) * 0.45 - 0.45:.3g} 0.07"><freejoint name="fj{i}"/>'
+      f'<geom type="{gt}" size="{size}" condim="{int(rng.choice([1, 3, 4, 6]))}" friction="{rng.uniform(0.3, 1.2):.3g} {rng.uniform(0.002, 0.05):.3g} {rng.uniform(0.0005, 0.01):.3g}"/></body>'
+    )
+  arm = '<body name="arm0" pos="1.4 0 0.5">'
+  for k in range(4):
+    arm += f'<joint name="h{k}" type="hinge" axis="0 1 0" limited="true" range="-0.4 0.4" frictionloss="0.05" damping="0.1"/><geom type="capsule" fromto="0 0 0 0.2 0 0" size="0.03"/><body name="arm{k + 1}" pos="0.2 0 0">'
+  arm += '<geom type="sphere" size="0.03"/>' + "</body>" * 5
+  xml = (
+    f'<mujoco><option cone="{cone}" solver="{solver}" tolerance="1e-10" iterations="{200 if solver == "CG" else 100}" ls_iterations="50"/>'
+    f'<worldbody><geom name="floor" type="plane" size="5 5 .1" condim="3"/>{bodies}{arm}</worldbody></mujoco>'
+  )
+  return xml, {"cone": cone, "solver": solver, "jacobian": "auto(nv>=60)", "impratio": 1.0, "adhesion": False}
+
+
+def big_states(rng, m, nworld):
+  import mujoco
+
+  qp, qv = [], []
+  for _ in range(nworld):
+    d = mujoco.MjData(m)
+    mujoco.mj_resetData(m, d)
+    qpos = d.qpos.copy()
+    for j in range(m.njnt):
+      a = m.jnt_qposadr[j]
+      if m.jnt_type[j] == mujoco.mjtJoint.mjJNT_FREE:
+        qpos[a : a + 2] += rng.normal(0, 0.03, 2)
+        qpos[a + 2] = rng.uniform(0.02, 0.12)
+        q = rng.normal(0, 1, 4)
+        qpos[a + 3 : a + 7] = q / np.linalg.norm(q)
+      else:
+        qpos[a] = rng.uniform(-0.6, 0.6)
+    qp.append(qpos.astype(np.float32).astype(np.float64))
+    qv.append(rng.normal(0, 0.5, m.nv).astype(np.float32).astype(np.float64))
+  return np.array(qp), np.array(qv)
+
+
+def launch_geometry_pin(res):
+  """Host-side launch geometry of the solver: every slot/group count derived from nworld is >= 1 (and <= the row
+  capacity) whenever there are rows - a zero-sized launch is accepted silently by Warp and skips the kernel."""
+  from mujoco_warp._src import solver
+
+  bad = []
+  fn = getattr(solver, "_jtdaj_groups_per_world", None)
+  if fn is None:
+    res.obligation("launch geometry: solver._jtdaj_groups_per_world present", False, "helper no longer exists: pin must be re-anchored")
+    return [{"site": "launch-geometry", "what": "_jtdaj_groups_per_world missing"}]
+  n = 0
+  for nworld in (1, 2, 3, 6, 7, 8, 16, 33, 64, 1000, 8192, 100000, 10**7):
+    for njmax in (1, 2, 5, 64, 4096):
+      g = int(fn(nworld, njmax))
+      n += 1
+      if not (1 <= g <= njmax):
+        bad.append({"site": "launch-geometry", "function": "solver._jtdaj_groups_per_world", "nworld": nworld, "njmax": njmax, "returned": g})
+  res.count(n)
+  res.obligation("launch geometry: 1 <= _jtdaj_groups_per_world(nworld, njmax) <= njmax on the pinned grid", not bad, f"{len(bad)} of {n} violate")
+  return bad
+
+
+class LaunchWatch:
+  """Records zero-sized kernel launches made while active (wp.launch / wp.launch_tiled of mujoco_warp's solver module)."""
+
+  def __init__(self):
+    self.zero = []
+
+  def __enter__(self):
+    import warp as wp
+
+    from mujoco_warp._src import solver
+
+    self.wp, self.solver = wp, solver
+    self.orig = (solver.wp.launch, solver.wp.launch_tiled)
+
+    def wrap(f):
+      def g(*a, **k):
+        dim = k.get("dim", a[1] if len(a) > 1 else None)
+        kernel = k.get("kernel", a[0] if a else None)
+        dims = dim if isinstance(dim, (tuple, list)) else (dim,)
+        try:
+          if any(int(x) == 0 for x in dims):
+            mod = getattr(getattr(kernel, "func", None), "__module__", "") or ""
+            self.zero.append((str(getattr(kernel, "key", kernel)), tuple(int(x) for x in dims), mod))
+        except (TypeError, ValueError):
+          pass
+        return f(*a, **k)
+
+      return g
+
+    wp.launch, wp.launch_tiled = wrap(self.orig[0]), wrap(self.orig[1])
+    return self
+
+  def __exit__(self, *a):
+    self.wp.launch, self.wp.launch_tiled = self.orig
+
+
 CONFIGS = [
   ("pyramidal", "Newton", "dense"), ("elliptic", "Newton", "dense"), ("pyramidal", "CG", "dense"), ("elliptic", "CG", "dense"),
   ("elliptic", "Newton", "sparse"), ("pyramidal", "Newton", "sparse"), ("pyramidal", "CG", "sparse"), ("elliptic", "CG", "sparse"),
@@ -250,42 +412,62 @@ def forward_oracle(res, nscenes):
 
   rng = np.random.default_rng(vlib.seed() + 6)
   fails = []
-  agg = {"rows": 0, "worst_force": 0.0, "worst_kkt": 0.0, "worst_qacc": 0.0, "worst_cost_gap": -1.0, "niter": 0, "compared": 0}
-  for xml, qpos, qvel, cfg in directed_scenes():
-    m, d, mm, dd = H.run_forward(xml, qpos, qvel)
-    cfg.update({"kkt_tol": 2e-3, "qacc_tol": 5e-2, "cost_tol": 1e-4, "warmstart": True})
-    f, st = certificate(m, d, mm, dd, cfg)
+  agg = {"rows": 0, "worlds": 0, "worst_force": 0.0, "worst_kkt": 0.0, "worst_qacc": 0.0, "worst_cost_gap": -1.0, "niter": 0, "compared": 0,
+         "batches": set(), "solver_zero_launches": set()}  # fmt: skip
+
+  def one(tag, xml, qp, qv, cfg, k):
+    with LaunchWatch() as lw:
+      m, dl, mm, dd = run_batch(xml, qp, qv)
+    cfg = dict(cfg, nworld=int(len(qp)), is_sparse=bool(mm.is_sparse))
+    f, st = certificate(m, dl, mm, dd, cfg)
     res.count()
-    res.nontrivial(("directed", cfg["directed"], cfg["jacobian"]))
+    agg["rows"] += st["rows"]
+    agg["worlds"] += len(qp)
+    for key in ("worst_force", "worst_kkt", "worst_qacc", "niter", "worst_cost_gap", "worst_energy"):
+      agg[key] = max(agg.get(key, -1.0), st.get(key, -1.0))
     agg["compared"] += st.get("compared", 0)
-    for x in f[:2]:
-      fails.append({"xml": xml, "qpos": qpos.tolist(), "qvel": qvel.tolist(), "config": cfg, "failure": x})
+    if st["rows"]:
+      res.nontrivial((tag, k, cfg["cone"], cfg["solver"], cfg["jacobian"], len(qp), st["rows"]))
+      agg["batches"].add((len(qp), "sparse" if mm.is_sparse else "dense", cfg["solver"]))
+      # a zero-sized launch of a solver kernel while there are constraint rows skips that kernel silently
+      for key_, dims in sorted({(a, b) for a, b, mod in lw.zero if mod.endswith("_src.solver")}):
+        agg["solver_zero_launches"].add((key_, dims))
+        f.append({"site": "solver-zero-sized-launch", "kernel": key_, "dim": list(dims), "nworld": len(qp)})
+    if k == 0:
+      res.sample({"kind": "certificate oracle " + tag, "config": cfg, "nefc": [int(d.nefc) for d in dl][:4], "stats": {a: (float(b) if isinstance(b, (float, np.floating)) else b) for a, b in st.items()}, "xml": xml[:300]})
+    sites = set()
+    for x in f:  # one failure per distinct site and scene
+      if x["site"] + x.get("kernel", "") not in sites and len(sites) < 6:
+        sites.add(x["site"] + x.get("kernel", ""))
+        fails.append({"xml": xml, "qpos": np.asarray(qp).tolist(), "qvel": np.asarray(qv).tolist(), "config": cfg, "failure": x})
+
+  for k, (xml, qpos, qvel, cfg) in enumerate(directed_scenes()):
+    cfg.update({"kkt_tol": 2e-3, "qacc_tol": 5e-2, "cost_tol": 1e-4, "warmstart": True})
+    one("directed", xml, [qpos], [qvel], cfg, k + 1)
+  # random scenes: cone x solver x jacobian cycle against the batch sizes, one state per world
+  sched = [("Newton", jac, n) for n in BATCHES for jac in ("dense", "sparse")] + [("CG", "dense", 1), ("CG", "sparse", 2), ("CG", "dense", 7), ("CG", "sparse", 16), ("CG", "dense", 33), ("CG", "sparse", 7)]
   for k in range(nscenes):
-    cone, solver, jac = CONFIGS[k % len(CONFIGS)]
+    solver, jac, nworld = sched[k % len(sched)]
+    cone = ("pyramidal", "elliptic")[(k + k // len(sched)) % 2]
     nowarm = k % 5 == 4
-    extra = f'iterations="{200 if solver == "CG" else 100}" tolerance="1e-10" ls_iterations="50"' + (' ' if not nowarm else "")
+    extra = f'iterations="{200 if solver == "CG" else 100}" tolerance="1e-10" ls_iterations="50"'
     xml, cfg = H.scene(rng, cone, solver, jac, extra_opt=extra)
     if nowarm:
       xml = xml.replace("<worldbody>", '<option><flag warmstart="disable"/></option><worldbody>', 1)
     m = mujoco.MjModel.from_xml_string(xml)
-    d = H.make_state(rng, m, mujoco.MjData(m))
-    qpos, qvel = d.qpos.copy(), d.qvel.copy()
-    m, d, mm, dd = H.run_forward(xml, qpos, qvel)
+    qp, qv = batch_states(rng, m, nworld)
     cfg.update({"kkt_tol": 2e-3 if solver == "Newton" else 1e-2, "qacc_tol": 5e-2 if solver == "Newton" else 1e-1, "cost_tol": 1e-4 if solver == "Newton" else 1e-3, "warmstart": not nowarm})
-    f, st = certificate(m, d, mm, dd, cfg)
-    res.count()
-    agg["rows"] += st["rows"]
-    for key in ("worst_force", "worst_kkt", "worst_qacc", "niter", "worst_cost_gap"):
-      agg[key] = max(agg[key], st.get(key, -1.0))
-    agg["compared"] += st.get("compared", 0)
-    if st["rows"]:
-      res.nontrivial(("forward", k, cone, solver, jac, st["rows"]))
-    if k == 0:
-      res.sample({"kind": "certificate oracle", "config": cfg, "nefc": int(d.nefc), "stats": st, "xml": xml[:300]})
-    for x in f[:3]:
-      fails.append({"xml": xml, "qpos": qpos.tolist(), "qvel": qvel.tolist(), "config": cfg, "failure": x})
-  res.extra["certificate_oracle"] = {k: (round(v, 6) if isinstance(v, float) else v) for k, v in agg.items()}
-  return fails
+    one("forward", xml, qp, qv, cfg, k)
+  # > 60 dofs: the engines pick the sparse Jacobian themselves
+  big = [("pyramidal", "Newton", 7), ("elliptic", "Newton", 16), ("elliptic", "CG", 7), ("pyramidal", "Newton", 33), ("elliptic", "Newton", 2), ("pyramidal", "CG", 16)]
+  for k, (cone, solver, nworld) in enumerate(big[: max(4, nscenes // 4)] if nscenes <= 40 else big * (nscenes // 48)):
+    xml, cfg = big_scene(rng, cone, solver)
+    m = mujoco.MjModel.from_xml_string(xml)
+    qp, qv = big_states(rng, m, nworld)
+    cfg.update({"kkt_tol": 2e-3 if solver == "Newton" else 1e-2, "qacc_tol": 5e-2 if solver == "Newton" else 1e-1, "cost_tol": 1e-4 if solver == "Newton" else 1e-3, "warmstart": True})
+    one("big", xml, qp, qv, cfg, k)
+  res.extra["certificate_oracle"] = {k: (sorted(map(list, v)) if isinstance(v, set) else (round(v, 6) if isinstance(v, float) else v)) for k, v in agg.items()}
+  return fails, agg
 
 
 def run(res):
@@ -294,7 +476,7 @@ def run(res):
   quick = res.tier == "quick"
   res.rule = (
     "T-validation: random float32 inputs per translated function; port cross-check: numpy float64 port of _eval_constraint vs the compiled function; "
-    "certificate oracle: random constrained scenes x cone x solver x jacobian x warmstart, distinct = scenes with at least one constraint row"
+    "certificate oracle: random constrained scenes x cone x solver x jacobian (forced dense/sparse, and a 70-dof model that is sparse by itself) x warmstart x batch size {1,2,7,16,33} with one state per world, every world certified; distinct = scenes with at least one constraint row; pin: solver launch-geometry helper on a grid of (nworld, njmax)"
   )
   tm = res.extra.setdefault("timing_s", {})
   t0 = time.time()
@@ -310,19 +492,28 @@ def run(res):
     res.obligation("oracle's numpy port of _eval_constraint agrees with the compiled function", not pbad, f"{len(pbad)} disagreements")
     search = search or bool(tbad) or bool(pbad)
     tm["tvalid"] = round(time.time() - t0, 1)
-  fails = forward_oracle(res, (16 if quick else 160) * (2 if search else 1))
+  pin_bad = launch_geometry_pin(res)
+  fails, agg = forward_oracle(res, (16 if quick else 160) * (2 if search else 1))
   tm["forward"] = round(time.time() - t0, 1)
+  need = {(n, sp, "Newton") for n in BATCHES for sp in ("sparse", "dense")}
+  res.obligation("oracle reached every batch size in {1,2,7,16,33} with Newton under both Jacobian storages", need <= agg["batches"], f"missing {sorted(need - agg['batches'])}")
+  res.obligation("no zero-sized launch of a solver kernel while constraint rows exist", not agg["solver_zero_launches"], f"{sorted(agg['solver_zero_launches'])[:4]}")
+  for b in pin_bad[:2]:
+    res.violation(f"C06:launch-geometry:{b.get('function', 'missing')}:returns-{b.get('returned')}", f"solver launch geometry helper returns a slot count outside [1, njmax]: {b}", b)
   seen = set()
   for f in fails:
     x = f["failure"]
     if x["site"] == "efc_D-vs-mujoco":  # same rows, different row mass: the two engines solve different problems
       key = f"C06:forward:efc_D-vs-mujoco:type{x['type']}:{x['jacobian']}"
+    elif x["site"] == "solver-zero-sized-launch":
+      key = f"C06:forward:solver-zero-sized-launch:{x['kernel']}"
     else:
       key = f"C06:forward:{x['site']}:{f['config']['cone']}:{f['config']['solver']}"
-    if key in seen or len(seen) >= 5:
+    if key in seen or len(seen) >= 8:
       continue
     seen.add(key)
     res.violation(key, f"after forward(): {x}", f)
+  fails = fails or pin_bad
   if tbad and not fails:
     res.violation("C06:translator-mismatch", "translated Gallina disagrees with compiled Warp function (model no longer tied to code)", tbad[:3], found_input=False)
   if pbad and not fails and not tbad:
@@ -331,7 +522,7 @@ def run(res):
     propkit.broken_proof_violation(res, "C06 theorem over regenerated solver.py", failing)
   res.assumptions += [
     "float32 rounding is not modelled: theorems are over R",
-    "convergence of Newton/CG is not proved: certified a posteriori per input (KKT residual <= 2e-3 Newton / 1e-2 CG relative to term magnitudes; qacc vs mujoco.mj_forward and Gauss cost not above the cost at MuJoCo's qacc, only on scenes where both engines built the same constraint set)",
+    "convergence of Newton/CG is not proved: certified a posteriori per input (KKT residual <= 2e-3 Newton / 1e-2 CG relative to term magnitudes, or worth less than 1e-6 of the cost scale in energy (float32 resolution of the cost); qacc vs mujoco.mj_forward and Gauss cost not above the cost at MuJoCo's qacc, only on scenes where both engines built the same constraint set)",
     "elliptic contacts enter the KKT theorem as blocks whose argument assembly is the hand model Model/SolverHand.v (tied to the kernel by C24's correspondence run) and under the row-mass relation D_k*mu^2 = D_0*mu_k^2 (checked on real data by C24)",
     "M symmetric positive semidefinite and D > 0 are hypotheses of the KKT theorem",
   ]
@@ -341,10 +532,18 @@ def replay(res, path):
   import json
 
   r = json.load(open(path))["replay"]
+  if isinstance(r, dict) and "function" in r:
+    from mujoco_warp._src import solver
+
+    g = solver._jtdaj_groups_per_world(r["nworld"], r["njmax"])
+    print("solver._jtdaj_groups_per_world(%d, %d) = %d" % (r["nworld"], r["njmax"], g))
+    return 0 if 1 <= g <= r["njmax"] else 1
   if not isinstance(r, dict) or "xml" not in r:
     print("replay: no concrete input in this file (proof/correspondence breakage); re-run the check")
     return 1
-  m, d, mm, dd = H.run_forward(r["xml"], np.array(r["qpos"]), np.array(r["qvel"]))
+  with LaunchWatch() as lw:
+    m, d, mm, dd = run_batch(r["xml"], r["qpos"], r["qvel"])
+  print("zero-sized solver launches:", sorted({(a, b) for a, b, c in lw.zero if c.endswith("_src.solver")}))
   f, st = certificate(m, d, mm, dd, r["config"])
   print("stats:", st)
   print("failures:", f[:5])
